@@ -184,12 +184,23 @@ func verifC14StartReading() {
 	t.startReading(conn)
 
 	b := make([]byte, 8)
+	if verifChoice(2) == 1 {
+		// a read buffer whose length is smaller than its capacity: what counts
+		// for a reader is len(b) (net.PacketConn: n <= len(p))
+		b = b[:1]
+		verifReach("short-len-buffer")
+	}
 	for i := 0; i < nFrames; i++ {
 		if len(t.recvChan) == 0 {
 			verifAssert(false, "frame-delivered") // reading would block: a frame is missing
 			return
 		}
 		n, addr, err := t.readFromContext(context.Background(), b)
+		if len(want[i]) > len(b) {
+			verifReach("frame-longer-than-the-read-buffer")
+			verifAssertKnown(err != nil && n == 0, "a-frame-longer-than-len(b)-is-an-error,never-a-partial-copy-reported-as-complete", "C14-read-copies-len-reports-cap", true)
+			continue
+		}
 		verifAssert(err == nil, "frame-delivered")
 		verifAssert(n == len(want[i]), "frame-length")
 		verifAssert(verifBytesEq(b[:n], want[i]), "frame-contents")
